@@ -382,6 +382,30 @@ var months = ev.Register(&ev.P[monthCase]{
 	Require: []string{"oct1582", "february", "startAfterWeekdayOfFirst", "crossesYear", "backward"},
 })
 
+// the first month of the range
+type edgeCase struct{ D, Start, K int }
+
+var weeksRangeEnd = ev.Register(&ev.P[edgeCase]{
+	Name: "first_month_of_the_range",
+	Rule: "every day of 0001-01 x 7 first weekdays x every k below the week's index; oracle: Next(−k, month-separated) is week (index − k) of 0001-01 and Next(k) from there is the starting week again; K = 0 cases record the evaluation of a day; non-trivial: k > 0",
+	Check: func(c edgeCase) error {
+		w := calendar.NewSolarWeekFromYmd(1, 1, c.D, c.Start)
+		idx := w.GetIndex()
+		if c.K == 0 || c.K >= idx {
+			return nil
+		}
+		b := w.Next(-c.K, true)
+		if b.GetYear() != 1 || b.GetMonth() != 1 || b.GetIndex() != idx-c.K {
+			return fmt.Errorf("week %d of 0001-01 (day %d, first weekday %d): Next(%d, month-separated) = %04d-%02d-%02d week %d, want week %d of 0001-01", idx, c.D, c.Start, -c.K, b.GetYear(), b.GetMonth(), b.GetDay(), b.GetIndex(), idx-c.K)
+		}
+		if f := b.Next(c.K, true); f.GetYear() != 1 || f.GetMonth() != 1 || f.GetIndex() != idx {
+			return fmt.Errorf("week %d of 0001-01 (day %d, first weekday %d): Next(%d).Next(%d) = %04d-%02d week %d", idx, c.D, c.Start, -c.K, c.K, f.GetYear(), f.GetMonth(), f.GetIndex())
+		}
+		return nil
+	},
+	Class: func(c edgeCase) ([]string, bool) { return []string{"edge"}, c.K > 0 },
+})
+
 func TestC15(t *testing.T) {
 	ev.Assume("R-civil (integer day numbers, weekday = (JDN+1) mod 7) defines weeks; a week's index counts week starts passed since the 1st, the partial first week being week 1")
 	years := gen.HotYears()
@@ -418,6 +442,20 @@ func TestC15(t *testing.T) {
 			for st := 0; st < 7; st++ {
 				weeks.Eval(weekCase{j, st, 0})
 				weeks.Eval(weekCase{j, st, 1})
+			}
+		}
+	}
+	// month-separated steps inside the first month of the range: from every day of 0001-01, k weeks back lands on week
+	// (index − k) of the same month, and coming back returns (the general check leaves out steps that end within 40
+	// days of the range ends; these stay inside the range)
+	if ev.Shard == 1%ev.NShards {
+		for st := 0; st < 7; st++ {
+			for d := 1; d <= 28; d++ {
+				w := calendar.NewSolarWeekFromYmd(1, 1, d, st)
+				idx := w.GetIndex()
+				for k := 1; k < idx; k++ {
+					weeksRangeEnd.Eval(edgeCase{D: d, Start: st, K: k})
+				}
 			}
 		}
 	}
